@@ -9,6 +9,6 @@ OnlyFalse  == {FALSE}
 OnlyTrue   == {TRUE}
 
 \* generation: one JSON line per behaviour, printed when the environment budget is used up and settled
-GenDone  == GenMode /\ mode = "env" /\ nenv = GenLen
+GenDone  == GenMode /\ mode = "env" /\ (nenv = GenLen \/ ~ENABLED Environment)
 GenPrint == GenDone => PrintT(<<"REPLAY", ToJson([cfg |-> cfg, steps |-> hist])>>)
 =============================================================================
